@@ -708,11 +708,14 @@ std::string check_layout(const Layout &l, std::string &key) {
 // ---------------------------------------------------------------------------
 // Runs `spec` natively in a fresh process (exec of ourselves): compile for the
 // target with the flag mask, run on the seeded inputs, report the output hash.
-bool pristine_native_hash(const std::string &spec, const std::string &target, unsigned long fmask, int n, uint64_t ds,
-                          uint64_t &hash_out) {
+std::string g_pristine_diag;
+// one attempt: 1 = the helper answered with a hash, 0 = it answered that it could not produce native code,
+// -1 = the helper process itself failed (no answer, killed, exec failed)
+static int pristine_attempt(const std::string &spec, const std::string &target, unsigned long fmask, int n, uint64_t ds, uint64_t &hash_out) {
   int pfd[2];
-  if (pipe(pfd) != 0) return false;
+  if (pipe(pfd) != 0) { g_pristine_diag = strf("pipe: %s", strerror(errno)); return -1; }
   pid_t pid = fork();
+  if (pid < 0) { g_pristine_diag = strf("fork: %s", strerror(errno)); close(pfd[0]); close(pfd[1]); return -1; }
   if (pid == 0) {
     close(pfd[0]);
     dup2(pfd[1], 1);
@@ -723,19 +726,36 @@ bool pristine_native_hash(const std::string &spec, const std::string &target, un
   close(pfd[1]);
   std::string out;
   char buf[512];
-  ssize_t k;
-  g_waiting_for_grandchild++;
-  while ((k = read(pfd[0], buf, sizeof buf)) > 0) out.append(buf, k);
+  for (;;) {
+    ssize_t k = read(pfd[0], buf, sizeof buf);
+    if (k > 0) { out.append(buf, k); continue; }
+    if (k < 0 && errno == EINTR) continue;
+    break;
+  }
   close(pfd[0]);
-  int stt;
-  waitpid(pid, &stt, 0);
-  g_waiting_for_grandchild--;
+  int stt = 0;
+  while (waitpid(pid, &stt, 0) < 0 && errno == EINTR) {}
   unsigned long long h = 0;
+  int agrees = 1;
   size_t pos = out.find("PRISTINE ok ");
-  if (pos == std::string::npos) return false;
-  if (sscanf(out.c_str() + pos, "PRISTINE ok %llu", &h) != 1) return false;
-  hash_out = h;
-  return true;
+  if (pos != std::string::npos && sscanf(out.c_str() + pos, "PRISTINE ok %llu %d", &h, &agrees) >= 1) {
+    hash_out = h;
+    return agrees ? 1 : 2;
+  }
+  if (out.find("PRISTINE ") != std::string::npos) { g_pristine_diag = out.substr(0, 80); return 0; }
+  g_pristine_diag = strf("helper gave no answer (wait status %#x, %zu bytes of output)", stt, out.size());
+  return -1;
+}
+int pristine_native_hash(const std::string &spec, const std::string &target, unsigned long fmask, int n, uint64_t ds,
+                         uint64_t &hash_out) {
+  g_waiting_for_grandchild++;
+  int r = -1;
+  for (int attempt = 0; attempt < 3 && r < 0; attempt++) {
+    if (attempt) usleep(200000);
+    r = pristine_attempt(spec, target, fmask, n, ds, hash_out);
+  }
+  g_waiting_for_grandchild--;
+  return r;
 }
 int pristine_main(int argc, char **argv) {
   if (argc < 7) return 3;
@@ -757,10 +777,17 @@ int pristine_main(int argc, char **argv) {
   if (!t || !t->executable) { printf("PRISTINE no-target\n"); return 0; }
   int res = orc_program_compile_full(p, t, orc_target_get_default_flags(t) & (unsigned)fmask);
   if (!ORC_COMPILE_RESULT_IS_SUCCESSFUL(res)) { printf("PRISTINE not-native %#x\n", res); return 0; }
-  RunData d;
+  RunData d, e;
   make_inputs(meta, ds, n, d);
+  make_inputs(meta, ds, n, e);
   run_with(p, nullptr, meta, RUN_EXEC, d);
-  printf("PRISTINE ok %llu\n", (unsigned long long)hash_outputs(meta, d));
+  // ... and whether native code agrees with emulation here, where there is no history, fault or other thread
+  ProgMeta tm;
+  OrcProgram *twin = build_program(spec, "prog_twin", &tm);
+  orc_program_compile_full(twin, nullptr, 0);
+  reference_emulate(twin, meta, e);
+  int agrees = compare_outputs(meta, d, e).empty();
+  printf("PRISTINE ok %llu %d\n", (unsigned long long)hash_outputs(meta, d), agrees);
   return 0;
 }
 }  // namespace sim
